@@ -41,6 +41,8 @@ def rev_after_recording(shape, fi, si):
     (0-based) of file fi: the kill there leaves file fi applied si+1 of n and nothing in flight."""
     n = 0
     for i, f in enumerate(shape["files"]):
+        if f.get("skipped"):
+            continue
         n += 1  # initial write
         for j in range(len(f["stmts"])):
             n += 1
@@ -67,7 +69,14 @@ def plan(ctx):
     s1 = L.make_shape("S", [1, 1, 2, 0, 2, 1], kinds=["D", "I", "II", "", "DX", "I"])
     s2 = L.make_shape("T", [2, 1, 1], kinds=["DI", "X", "I"])
     pz = L.make_shape("P", [2, 3], kinds=["DI", "IDI"])
+    # `-- atlas:checkpoint` files: a fresh database starts at the LAST checkpoint (only file / followed by later files /
+    # preceded by older files and an older checkpoint); a kill inside the checkpoint must be resumed IN the checkpoint
+    ks = [L.make_shape("K1", [3], kinds=["DII"], checkpoints=[0]),
+          L.make_shape("K2", [2, 2, 1], kinds=["DI", "II", "I"], checkpoints=[0]),
+          L.make_shape("K3", [2, 1, 1, 3, 1], kinds=["DI", "D", "I", "DII", "I"], checkpoints=[1, 3])]
     if ctx.quick():
+        for k in ks:
+            add(k, tag="checkpoint")
         add(a)
         add(random_shape(ctx, "Q", 3, 3, "quick"))
         add(s1, modes=("file", "all"))
@@ -80,6 +89,9 @@ def plan(ctx):
         add(L.make_shape("DfM", [2, 1, 2], directives={1: "file"}), modes=("none",), tag="directive")
         add(a, modes=("file",), params="_journal_mode=WAL", tag="wal")
         return cfgs
+    for k in ks:
+        add(k, tag="checkpoint", strace=(k["name"] == "K2"))
+    add(L.make_shape("K4", [1, 4, 2], kinds=["I", "DIDI", "II"], checkpoints=[1], directives={1: "none"}), modes=("file", "none"), tag="checkpoint")
     add(s1, modes=("file", "all"))
     add(L.relaxed(s1, "Sn"), modes=("none",))
     add(s2, modes=("file", "all"))
